@@ -487,7 +487,8 @@ def runCalls (F : Nat → Bool) (cfg : Cfg) : S → List Call → S × List DR
 def initFS (old : Bytes) : FS := { target := some 0, inodes := [old] }
 
 structure Run where
-  s : S
+  s : S               -- after archive_write_free
+  sc : S              -- after archive_write_close
   hdr : Status
   datas : List DR
   fin : Option Status
@@ -507,7 +508,7 @@ def session (F : Nat → Bool) (cfg : Cfg) (old : Bytes) (calls : List Call) (ex
     else (d.1, none)
   let c := closeCall F cfg f.1
   let e := closeCall F cfg c.1
-  { s := e.1, hdr := h.2, datas := d.2, fin := f.2, cls := c.2, fre := e.2 }
+  { s := e.1, sc := c.1, hdr := h.2, datas := d.2, fin := f.2, cls := c.2, fre := e.2 }
 
 /-- The file-system states a crash can leave: the state after every call issued. -/
 def Run.crashStates (r : Run) : List FS := r.s.w.log.map (·.post)
